@@ -15,7 +15,8 @@ import core
 import realcode as R
 
 core.repo_on_path()
-from common import concertina_lib  # noqa: E402
+with R.quiet():       # the module prints a notice when IPython is absent
+  from common import concertina_lib  # noqa: E402
 
 RULE = ('configs: 1-5 actions, requirement DAGs along a random order (5% arbitrary graphs), 0-2 disjoint '
         'iteration groups (halved or diamond, declared order random, 1-3 repetitions), stop signals raised at '
